@@ -56,10 +56,12 @@ InsertCore(f, r, c) ==
 (* operations of the owner between polls *)
 \* Extend::extend (FutureGroup only): reserve(size_hint upper bound), then insert each; the caller learns no keys
 \* (the harness reports them as -1)
-ExtendOp(cnt) ==
+\* hint: the upper bound of the iterator's size_hint (None counts as 0): exact, absent (from_fn) or too large by two
+Hints(cnt) == {cnt, 0, cnt + 2}
+ExtendOp(cnt, hint) ==
   /\ pc = "idle" /\ ~IsSG /\ fs.nins + cnt <= cfg.maxIns /\ "maxExt" \in DOMAIN cfg /\ cnt <= cfg.maxExt
   /\ LET c0 == Cardinality(Ch)
-         g0 == Reserve(fs, rd, cnt)
+         g0 == Reserve(fs, rd, hint)
          RECURSIVE Many(_, _, _)
          Many(f, r, i) == IF i = cnt THEN <<f, r>> ELSE LET x == InsertCore(f, r, c0 + i) IN Many(x[1], x[2], i + 1)
          g == Many(g0[1], g0[2], 0)
@@ -69,22 +71,22 @@ ExtendOp(cnt) ==
         /\ ans' = ans @@ [c \in newc |-> "new"] /\ alive' = alive @@ [c \in newc |-> TRUE]
         /\ pend' = pend @@ [c \in newc |-> 0] /\ nit' = nit @@ [c \in newc |-> 0] /\ polls' = polls @@ [c \in newc |-> 0]
         /\ handed' = handed @@ [c \in newc |-> <<>>] /\ firedL' = firedL @@ [c \in newc |-> FALSE]
-        /\ Emit([i \in 1..cnt |-> [e |-> "insert", c |-> c0 + i - 1, key |-> -1]] \o <<EvView(f2)>>)
+        /\ Emit(<<[e |-> "extend", n |-> cnt, hint |-> hint]>> \o [i \in 1..cnt |-> [e |-> "insert", c |-> c0 + i - 1, key |-> -1]] \o <<EvView(f2)>>)
   /\ needPoll' = TRUE /\ quiesced' = FALSE
   /\ UNCHANGED <<cfg, pc, cur, gen, wokenL, started, final, nfire, nstale, nspur, ninfire, seen, conc>>
 
 \* FromIterator (`collect()` into a group): the group the caller starts with is built from an iterator.
-\*   FutureGroup::from_iter = new() + extend(iter)            (future_group.rs: capacity 0, reserve(len), inserts)
-\*   StreamGroup::from_iter = with_capacity(len) + insert*    (stream_group.rs)
+\*   FutureGroup::from_iter = new() + extend(iter)            (future_group.rs: capacity 0, reserve(hint), inserts)
+\*   StreamGroup::from_iter = with_capacity(hint) + insert*   (stream_group.rs)
 \* The caller learns no keys.  Only while nothing has happened to the group (the harness replaces the pristine group).
-FromIterOp(cnt) ==
+FromIterOp(cnt, hint) ==
   /\ pc = "idle" /\ ~started /\ Cardinality(Ch) = 0 /\ fs.nins = 0 /\ fs.nrem = 0 /\ fs.nres = 0
   /\ "maxFromIter" \in DOMAIN cfg /\ cnt <= cfg.maxFromIter /\ cnt <= cfg.maxIns
   /\ LET c0 == 0
-         cap0 == IF IsSG THEN cnt ELSE 0
+         cap0 == IF IsSG THEN hint ELSE 0
          base == FsInit([n |-> cap0])
          r0 == RInit(cap0)
-         g0 == IF IsSG THEN <<base, r0>> ELSE Reserve(base, r0, cnt)
+         g0 == IF IsSG THEN <<base, r0>> ELSE Reserve(base, r0, hint)
          RECURSIVE Many(_, _, _)
          Many(f, r, i) == IF i = cnt THEN <<f, r>> ELSE LET x == InsertCore(f, r, c0 + i) IN Many(x[1], x[2], i + 1)
          g == Many(g0[1], g0[2], 0)
@@ -94,7 +96,7 @@ FromIterOp(cnt) ==
         /\ ans' = ans @@ [c \in newc |-> "new"] /\ alive' = alive @@ [c \in newc |-> TRUE]
         /\ pend' = pend @@ [c \in newc |-> 0] /\ nit' = nit @@ [c \in newc |-> 0] /\ polls' = polls @@ [c \in newc |-> 0]
         /\ handed' = handed @@ [c \in newc |-> <<>>] /\ firedL' = firedL @@ [c \in newc |-> FALSE]
-        /\ Emit(<<[e |-> "fromiter", n |-> cnt]>> \o [i \in 1..cnt |-> [e |-> "insert", c |-> c0 + i - 1, key |-> -1]] \o <<EvView(f2)>>)
+        /\ Emit(<<[e |-> "fromiter", n |-> cnt, hint |-> hint]>> \o [i \in 1..cnt |-> [e |-> "insert", c |-> c0 + i - 1, key |-> -1]] \o <<EvView(f2)>>)
   /\ needPoll' = TRUE /\ quiesced' = FALSE
   /\ UNCHANGED <<cfg, pc, cur, gen, wokenL, started, final, nfire, nstale, nspur, ninfire, seen, conc>>
 
@@ -221,8 +223,8 @@ ChildPanic == PanicWith(DropEvents)
 
 Next == EnvNext \/ PollBegin \/ ScanStep \/ ChildAnswer \/ ChildPanic \/ Drop
         \/ Insert \/ (\E a \in 0..(IF TraceMode THEN 8 ELSE 2) : ReserveOp(a)) \/ (\E k \in Range(fs.ever) : Remove(k))
-        \/ (\E n \in 1..3 : ExtendOp(n))
-        \/ (\E n \in 1..4 : FromIterOp(n))
+        \/ (\E n \in 1..3 : \E h \in Hints(n) : ExtendOp(n, h))
+        \/ (\E n \in 1..4 : \E h \in Hints(n) : FromIterOp(n, h))
 NextLive == Next \/ \E c \in Ch : OwedWake(c)
 Spec == Init /\ [][Next]_vars
 LiveSpec == Init /\ [][NextLive]_vars
